@@ -547,6 +547,14 @@ func cmdCheck(args []string) int {
 		all = append(all, u.obls...)
 	}
 	e.Discharge(all, timeout, 10, os.Getenv("GOVC_KEEP"))
+	if os.Getenv("GOVC_SLOW") != "" {
+		// diagnostic only: which obligations needed more than 5 s
+		for _, ob := range all {
+			if ob.TimeS > 5 && ob.Kind != "vacuity" {
+				fmt.Fprintf(os.Stderr, "SLOW %.1fs %s %s [%s]\n", ob.TimeS, ob.Name, ob.Solver, ob.Status)
+			}
+		}
+	}
 
 	// collect
 	perSolver := map[string]int{}
